@@ -311,46 +311,7 @@ func (c *Cluster) probe(ctx context.Context, sc *DkgScenario, parts []uint64, co
 		}
 		log.Emit(Ev{"ev": "Usable", "inst": id, "sign": signOK, "signkey": signKeyOK, "list": listOK})
 	}
-	var cpk bls.PublicKey
-	cb, _ := hex.DecodeString(composite)
-	if cpk.Deserialize(cb) != nil {
-		log.Emit(Ev{"ev": "Threshold", "t_ok": false, "tm1_fail": false, "note": "composite key does not parse"})
-		return
-	}
-	t := int(sc.T)
-	check := func(k int) (allValid, noneValid bool, n int) {
-		allValid, noneValid = true, true
-		for _, sub := range combos(parts, k) {
-			ss := make([]bls.Sign, 0, k)
-			is := make([]bls.ID, 0, k)
-			missing := false
-			for _, id := range sub {
-				s, ok := sigs[id]
-				if !ok {
-					missing = true
-					break
-				}
-				ss = append(ss, s)
-				is = append(is, *util.BLSID(id))
-			}
-			n++
-			var rec bls.Sign
-			valid := !missing && rec.Recover(ss, is) == nil && rec.VerifyByte(&cpk, root[:])
-			if valid {
-				noneValid = false
-			} else {
-				allValid = false
-			}
-		}
-		return
-	}
-	tAll, _, nt := check(t)
-	tm1None := true
-	ntm1 := 0
-	if t-1 >= 1 {
-		_, tm1None, ntm1 = check(t - 1)
-	}
-	log.Emit(Ev{"ev": "Threshold", "t_ok": tAll, "tm1_fail": tm1None, "subsets_t": nt, "subsets_tm1": ntm1})
+	thresholdEvent(log, parts, sigs, composite, int(sc.T), root)
 	_ = core.Endpoint{}
 }
 
@@ -457,4 +418,48 @@ func (c *Cluster) runDuties(ctx context.Context, sc *DkgScenario, infos map[uint
 		}
 		log.Emit(Ev{"ev": "DutyTotal", "duty": name, "partials": len(ids), "composite_valid": compositeOK})
 	}
+}
+
+// thresholdEvent checks that ALL t-subsets of the partial signatures recover a signature valid under the composite key and that no
+// (t-1)-subset does, and emits the Threshold event.
+func thresholdEvent(log *Log, parts []uint64, sigs map[uint64]bls.Sign, composite string, t int, root [32]byte) {
+	var cpk bls.PublicKey
+	cb, _ := hex.DecodeString(composite)
+	if cpk.Deserialize(cb) != nil {
+		log.Emit(Ev{"ev": "Threshold", "t_ok": false, "tm1_fail": false, "note": "composite key does not parse"})
+		return
+	}
+	check := func(k int) (allValid, noneValid bool, n int) {
+		allValid, noneValid = true, true
+		for _, sub := range combos(parts, k) {
+			ss := make([]bls.Sign, 0, k)
+			is := make([]bls.ID, 0, k)
+			missing := false
+			for _, id := range sub {
+				s, ok := sigs[id]
+				if !ok {
+					missing = true
+					break
+				}
+				ss = append(ss, s)
+				is = append(is, *util.BLSID(id))
+			}
+			n++
+			var rec bls.Sign
+			valid := !missing && rec.Recover(ss, is) == nil && rec.VerifyByte(&cpk, root[:])
+			if valid {
+				noneValid = false
+			} else {
+				allValid = false
+			}
+		}
+		return
+	}
+	tAll, _, nt := check(t)
+	tm1None := true
+	ntm1 := 0
+	if t-1 >= 1 {
+		_, tm1None, ntm1 = check(t - 1)
+	}
+	log.Emit(Ev{"ev": "Threshold", "t_ok": tAll, "tm1_fail": tm1None, "subsets_t": nt, "subsets_tm1": ntm1})
 }
